@@ -12,7 +12,7 @@ from ..util import Info, Raised, as_nibbles, cm_enter, cm_exit, expect, expect_e
 
 ID = "C08"
 LEVEL = "exploration"
-BUDGET = {"quick": 2400, "thorough": 100000}
+BUDGET = {"quick": 1300, "thorough": 100000}
 RULE = (
     "case = (mapping of 1-10 items incl. prefix-related keys, branch values, embedded and "
     "hashed nodes; extra nibble paths). For each mapping the paths are: every nibble "
